@@ -702,8 +702,10 @@ def r_layout(f):
             if not extra_fn:
                 ninc += 1
             R.inconc(b.ident, "engine inconclusive: %s" % e)
-            if os.environ.get("VERIF_LAYOUT_STRICT") and any(fn_ and fn_["name"] in ("get_unchecked", "get_unchecked_mut", "from_raw_parts", "from_raw_parts_mut") for _, _, fn_ in b.calls()):
-                R.fail(b.ident, "unproven-unchecked", "%s contains an unchecked access that the evaluator cannot follow (%s): unproven" % (b.ident, e), b.where())
+            if not extra_fn and not os.environ.get("VERIF_LAYOUT_LENIENT") and any(fn_ and fn_["name"] in ("get_unchecked", "get_unchecked_mut", "from_raw_parts", "from_raw_parts_mut") for _, _, fn_ in b.calls()):
+                # fail closed (section 7): one of the anchored accessors performs an unchecked access in code the evaluator cannot
+                # follow - the address is unproven, not "undecided"
+                R.fail(b.ident, "unproven-unchecked", "%s performs an unchecked access but the layout evaluator cannot follow the function (%s): the address is unproven" % (b.ident, e), b.where())
             continue
         except (KeyError, IndexError, TypeError, AttributeError, RecursionError) as e:
             if not extra_fn:
